@@ -28,6 +28,21 @@ objects   TLC enumerates call histories over a class Node (construct, return by 
           reports this_ownership / this_const / identity of every wrapper and the construction /
           destruction counters, compared with the state carried by the spec.  thorough: deeper
           histories by simulation, and everything again with the extension built with ASan.
+coercion  PyDispatch models classes with converting constructors carrying an `explicit` flag
+          (M: explicit M(int), M(double); T: explicit T(int), T(string); E: explicit E(int);
+          W: W(int), W(double)) taken by const reference, by value and by pointer: C++ uses only a
+          NON-explicit constructor (one user-defined conversion, ranked below every standard
+          conversion), never for a pointer; the mechanism is the generated Dtool_Coerce_K plus the
+          second, coercing pass of write_function_forset.  Instances remember which constructor
+          made them, so the replay sees the constructor used and its value; live counters cover the
+          temporaries.
+unbuilt   PyObjects (cfg PyObjects_empty) has wrappers WITHOUT a C++ object (Cls.__new__(Cls), a
+          Python subclass whose __init__ does not chain up), __init__ on them and __init__ run again
+          on a constructed wrapper (the object owned before must be destroyed).  After every step
+          every such wrapper is probed with every kind of use (const / non-const methods, static
+          through the instance, property get / set, operators, len / item, sequence and mapping
+          properties, MAKE_SEQ, bound method, copy, passing it as an argument): TypeError, no crash,
+          counters unchanged.
 helpers   PyObjectsH adds the helper objects the runtime creates on the fly (sequence / mapping
           property wrappers with and without setter, key views, bound methods, iterators over them)
           and the references they hold: reference accounting, owner destroyed exactly when the last
@@ -54,7 +69,9 @@ STR = "aéz"
 CTYPE = {"i8": "signed char", "u8": "unsigned char", "i16": "short", "u16": "unsigned short", "i32": "int",
          "u32": "unsigned int", "il": "long", "ul": "unsigned long", "i64": "long long", "u64": "unsigned long long",
          "f32": "float", "f64": "double", "bool": "bool", "str": "const std::string &",
-         "rA": "A &", "cA": "const A &", "rB": "B &", "cB": "const B &", "rD": "D &", "cD": "const D &"}
+         "rA": "A &", "cA": "const A &", "rB": "B &", "cB": "const B &", "rD": "D &", "cD": "const D &",
+         "cM": "const M &", "vM": "M", "pM": "M *", "cT": "const T &", "cE": "const E &", "cW": "const W &"}
+COCATS = {"cM": "M", "vM": "M", "pM": "M", "cT": "T", "cE": "E", "cW": "W"}
 # two families of the class chain base <- mid <- leaf (+ one unrelated class): in family 0 the names
 # sort base < mid < leaf, in family 1 leaf < mid < base; sets alternate between them, and family 1
 # declares its overloads in reverse order (ties of the sort order must not decide anything)
@@ -74,9 +91,11 @@ def param_name(nm, j, i):
     return ("xy" if nm == "alt" and j % 2 == 0 else "ab")[i]
 INTCATS = ("i8", "u8", "i16", "u16", "i32", "u32", "il", "ul", "i64", "u64")
 DEFAULT = {"f32": "1.5f", "f64": "1.5", "bool": "true", "str": '"dflt"', "rA": "g_%(A)s", "cA": "%(A)s::cref()",
-           "rB": "g_%(B)s", "cB": "%(B)s::cref()", "rD": "g_%(D)s", "cD": "%(D)s::cref()"}
+           "rB": "g_%(B)s", "cB": "%(B)s::cref()", "rD": "g_%(D)s", "cD": "%(D)s::cref()",
+           "cM": "g_M", "vM": "g_M", "pM": "&g_M", "cT": "g_T", "cE": "g_E", "cW": "g_W"}
 DEFLOG = {"f32": "1.5", "f64": "1.5", "bool": "T", "str": "dflt", "rA": "A#{A_gref}", "cA": "A#{A_cref}",
-          "rB": "B#{B_gref}", "cB": "B#{B_cref}", "rD": "D#{D_gref}", "cD": "D#{D_cref}"}
+          "rB": "B#{B_gref}", "cB": "B#{B_cref}", "rD": "D#{D_gref}", "cD": "D#{D_cref}",
+          "cM": "M[n:0:]", "vM": "M[n:0:]", "pM": "M[n:0:]", "cT": "T[n:0:]", "cE": "E[n:0:]", "cW": "W[n:0:]"}
 CLASSES = ["A", "B", "D", "C"]          # Probe::live(k + 4 * family) index
 
 PROBE_H = r'''
@@ -87,7 +106,7 @@ PUBLISHED:
   static int live(int k);
 public:
   static void log(const std::string &s);
-  static int counts[8];
+  static int counts[16];
 };
 '''
 FAMILY_H = r'''
@@ -128,7 +147,7 @@ PROBE_CXX = r'''
 #include <cstdio>
 #include <type_traits>
 static std::string the_log;
-int Probe::counts[8] = {0};
+int Probe::counts[16] = {0};
 static int next_id = 1;
 void Probe::log(const std::string &s) { the_log += s; the_log += ";"; }
 std::string Probe::take_log() { std::string r = the_log; the_log.clear(); return r; }
@@ -172,8 +191,25 @@ static std::string to_s(const %(A)s &v) { return "A#" + std::to_string(v._id); }
 static std::string to_s(const %(B)s &v) { return "B#" + std::to_string(v._id); }
 static std::string to_s(const %(D)s &v) { return "D#" + std::to_string(v._id); }
 '''
-COMMON_H = PROBE_H + "".join(FAMILY_H % f for f in FAMILY)
-COMMON_CXX = PROBE_CXX + "".join(FAMILY_CXX % dict(f, k=4 * n) for n, f in enumerate(FAMILY))
+# classes with converting constructors (PyDispatch Ctors): every instance remembers which constructor
+# made it (n = default, i = int, d = double, s = string; a copy keeps the tag) and the value
+CO_CTORS = {"M": [("int", True), ("double", False)], "T": [("int", True), ("const std::string &", False)],
+            "E": [("int", True)], "W": [("int", False), ("double", False)]}
+CO_TAG = {"int": "i", "double": "d", "const std::string &": "s"}
+CO_H = "".join("class %s {\nPUBLISHED:\n  %s();\n%s  ~%s();\n  %s(const %s &o);\npublic:\n  char _tag; double _num; std::string _str;\n};\nextern %s g_%s;\n" % (
+    k, k, "".join("  %s%s(%s v);\n" % ("explicit " if ex else "", k, t) for t, ex in cs), k, k, k, k, k) for k, cs in sorted(CO_CTORS.items()))
+CO_CXX = "".join(
+    "%(k)s g_%(k)s;\n%(k)s::%(k)s() : _tag('n'), _num(0) { ++Probe::counts[%(n)d]; }\n"
+    "%(k)s::%(k)s(const %(k)s &o) : _tag(o._tag), _num(o._num), _str(o._str) { ++Probe::counts[%(n)d]; }\n"
+    "%(k)s::~%(k)s() { --Probe::counts[%(n)d]; }\n" % dict(k=k, n=8 + n) +
+    "".join("%s::%s(%s v) : _tag('%s'), %s { ++Probe::counts[%d]; }\n" % (
+        k, k, t, CO_TAG[t], "_num(0), _str(v)" if "string" in t else "_num(v)", 8 + n) for t, ex in cs) +
+    'static std::string to_s(const %s &v) { return std::string("%s[") + v._tag + ":" + to_s(v._num) + ":" + v._str + "]"; }\n'
+    'static std::string to_s(const %s *v) { return to_s(*v); }\n' % (k, k, k)
+    for n, (k, cs) in enumerate(sorted(CO_CTORS.items())))
+NCOUNTS = 12
+COMMON_H = PROBE_H + "".join(FAMILY_H % f for f in FAMILY) + CO_H
+COMMON_CXX = PROBE_CXX + "".join(FAMILY_CXX % dict(f, k=4 * n) for n, f in enumerate(FAMILY)) + CO_CXX
 
 
 def fam_of(sid):
@@ -181,7 +217,7 @@ def fam_of(sid):
 
 
 def ret_type(o):
-    if o["p"] and o["p"][0] in CTYPE and o["p"][0] not in INSTCATS:
+    if o["p"] and o["p"][0] in CTYPE and o["p"][0] not in INSTCATS and o["p"][0] not in COCATS:
         c = o["p"][0]
         return "std::string" if c == "str" else CTYPE[c]
     return "int"
@@ -205,7 +241,7 @@ def render_sets(sets):
                 names.append(nm)
                 dflt = ""
                 if i >= np - o["d"]:
-                    dflt = " = " + (DEFAULT.get(c, "7") % FAMILY[fam] if c in DEFAULT else "7")
+                    dflt = " = " + ((DEFAULT[c] % FAMILY[fam] if "%" in DEFAULT[c] else DEFAULT[c]) if c in DEFAULT else "7")
                 ps.append((ctype(c, fam), nm, dflt))
             rt = ret_type(o)
             decls.append("  %s%s f(%s)%s;" % ("static " if static else "", rt,
@@ -221,9 +257,19 @@ def render_sets(sets):
     return "\n".join(H) + "\n", "\n".join(X) + "\n"
 
 
-def arg_log(tok, pcat, ids):
-    """text the instrumented body logs for Python argument tok received through parameter pcat"""
+def arg_log(tok, pcat, ids, ctor=""):
+    """text the instrumented body logs for Python argument tok received through parameter pcat
+    (ctor: the parameter type of the converting constructor C++ uses, "" if none)"""
     t = tok[0]
+    if pcat in COCATS:
+        k = COCATS[pcat]
+        if t == "i" + k:
+            return "%s[n:0:]" % k
+        val = {"int": INTV[tok[1]] if t == "int" else None, "bool": 1, "float": 2.5}.get(t)
+        if ctor == "str":
+            return "%s[s:0:%s]" % (k, STR)
+        num = ("%d" % val) if float(val) == int(val) else repr(float(val))
+        return "%s[%s:%s:]" % (k, "i" if ctor == "i32" else "d", num)
     if t == "int":
         return str(INTV[tok[1]])
     if t == "bool":
@@ -235,11 +281,11 @@ def arg_log(tok, pcat, ids):
     return "%s#%d" % (pcat[1], ids[t])
 
 
-def expected_log(sid, j, o, argtoks, ids):
+def expected_log(sid, j, o, argtoks, ids, co=()):
     parts = []
     for i, c in enumerate(o["p"]):
         if i < len(argtoks):
-            parts.append(arg_log(argtoks[i], c, ids))
+            parts.append(arg_log(argtoks[i], c, ids, co[i] if i < len(co) else ""))
         else:
             d = DEFLOG.get(c, "7")
             parts.append(d.format(**ids) if "{" in d else d)
@@ -250,7 +296,7 @@ def expected_ret(j, o, argtoks):
     if not o["p"]:
         return j
     c = o["p"][0]
-    if c in INSTCATS:
+    if c in INSTCATS or c in COCATS:
         return j
     if argtoks:
         t = argtoks[0]
@@ -300,13 +346,14 @@ def cpp_arg(tok, ct, fam=0):
             return None
         return "(%s)(%s)" % (CTYPE[ct], lit)
     return {"bool": "true", "float": "2.5", "str": 'std::string("a\\xc3\\xa9z")', "iA": "a_obj%d" % fam, "iB": "b_obj%d" % fam,
-            "iD": "d_obj%d" % fam, "iC": "c_obj%d" % fam, "kA": "ka_obj%d" % fam, "kB": "kb_obj%d" % fam}.get(t)
+            "iD": "d_obj%d" % fam, "iC": "c_obj%d" % fam, "kA": "ka_obj%d" % fam, "kB": "kb_obj%d" % fam,
+            "iM": "m_obj", "iT": "t_obj", "iE": "e_obj", "iW": "w_obj"}.get(t)
 
 
 def native_program(hdr, src, sets, picks):
     """picks: {sid: [call index]}: the calls compiled natively"""
     L = ['#include "%s"' % hdr, '#include "%s"' % src, NATIVE_PRE, "int main() {",
-         "  Probe::take_log();"]
+         "  Probe::take_log();", "  M m_obj; T t_obj; E e_obj; W w_obj;"]
     for n, f in enumerate(FAMILY):
         L.append("  %(A)s a_obj%(n)d; %(B)s b_obj%(n)d; %(D)s d_obj%(n)d; %(C)s c_obj%(n)d; const %(A)s &ka_obj%(n)d = %(A)s::cref(); "
                  "const %(B)s &kb_obj%(n)d = %(B)s::cref();" % dict(f, n=n))
@@ -318,6 +365,9 @@ def native_program(hdr, src, sets, picks):
         for n in picks.get(sid, ()):
             call = rec["calls"][n]
             if any(call["kw"]):          # keyword arguments have no C++ counterpart
+                continue
+            # an instance passed where a K * is wanted is &obj in C++: not expressible per call
+            if any(a["t"] == "iM" for a in call["a"]) and any("pM" in o["p"] for o in rec["ov"]):
                 continue
             exprs = [cpp_arg(tok, ct, fam_of(sid)) for tok, ct in zip(toks(call), call["ct"])]
             if any(e is None for e in exprs):
@@ -384,7 +434,7 @@ def dispatch_batch(args):
         res["build_error"] = (e.stage, e.detail[-3000:])
         return res
     res["t_build"] = time.time() - t0
-    script = dict(module=name, mode="dispatch", nclasses=len(CLASSES),
+    script = dict(module=name, mode="dispatch", nclasses=len(CLASSES), ncounts=NCOUNTS,
                   sets=[dict(id=sid, kind=rec["kind"], fam=fam_of(sid), calls=[[c["self"], toks(c), c["kw"]] for c in rec["calls"]])
                         for sid, rec in sets])
     json.dump(script, open(os.path.join(wd, "script.json"), "w"))
@@ -468,7 +518,7 @@ def judge_call(sid, rec, call, o, ids):
             bad.append(("dispatch", "expected overload %d to run, observed %s/%d" % (call["j"], kind, j)))
         else:
             ov = rec["ov"][j - 1]
-            want = expected_log(sid, j, ov, argt, ids)
+            want = expected_log(sid, j, ov, argt, ids, call.get("co", ()))
             if o["log"] != want:
                 bad.append(("argvalue", "overload %d received %r, expected %r" % (j, o["log"], want)))
             wr = expected_ret(j, ov, argt)
@@ -586,6 +636,11 @@ NODEH_H = NODE_H.replace("public:\n  explicit Node(int is_static);", r"""  int g
   MAKE_MAP_KEYS_SEQ(named, get_num_names, get_name);
   MAKE_MAP_KEYS_SEQ(mnamed, get_num_names, get_name);
   bool operator == (const Node &other) const;
+  void set_touched(int v);
+  MAKE_PROPERTY(touched, get_touched, set_touched);
+  int operator + (int v) const;
+  int size() const;
+  int operator [] (int i) const;
 public:
   explicit Node(int is_static);
   int _v[3];""")
@@ -604,6 +659,10 @@ void Node::set_named(const std::string &key, int v) { _v[key[0] - 'a'] = v; }
 int Node::get_num_names() const { return 3; }
 std::string Node::get_name(int i) const { return std::string(1, (char)('a' + i)); }
 bool Node::operator == (const Node &other) const { return _v[0] == other._v[0]; }
+void Node::set_touched(int v) { _touched = v; }
+int Node::operator + (int v) const { return _v[0] + v; }
+int Node::size() const { return 3; }
+int Node::operator [] (int i) const { return _v[i]; }
 """
 
 
@@ -621,7 +680,7 @@ def history_script(name, hists):
         steps = []
         for s in h["steps"]:
             op = s["op"]
-            if op in ("PyConstruct", "ReturnStatic"):
+            if op in ("PyConstruct", "ReturnStatic", "NewEmpty", "Init", "ReInit"):
                 steps.append([op, "w%d" % s["w"]])
             elif op in ("ReturnByValue", "ReturnBorrowed", "ReturnConstRef", "ReturnThis", "PassToCpp"):
                 steps.append([op, "w%d" % s["w"], "w%d" % s["src"]])
@@ -629,7 +688,8 @@ def history_script(name, hists):
                 steps.append([op, "w%d" % s["w"]])
             # wrappers whose instance is dead must not be dereferenced, not even to observe them
             steps[-1] = dict(do=steps[-1], usable=["w%d" % (i + 1) for i, w in enumerate(s["wr"])
-                                                    if w["ptr"] != 0 and s["alive"][w["ptr"] - 1]])
+                                                    if w["ptr"] > 0 and s["alive"][w["ptr"] - 1]],
+                             empty=["w%d" % (i + 1) for i, w in enumerate(s["wr"]) if w["ptr"] == -1])
         out.append(dict(id=hid, steps=steps))
     return dict(module=name, mode="objects", histories=out)
 
@@ -667,11 +727,56 @@ def judge_history(h, o):
     return bad
 
 
+# probes on a wrapper without object whose target is a const method (input predicate of a finding)
+CONST_PROBES = ("const0 get_id", "const0 peek", "const1 get_val", "const make", "const cchild", "const get_copy", "bound method")
+E_CLASSES = ["C02-reinit-leaks-object", "C02-unconstructed-const-method-systemerror"]
+
+
+def judge_ehistory(h, o):
+    """histories with wrappers without object / repeated __init__: [(text, [classes from the input])]"""
+    reinit = False
+    out = []
+    first_reinit = None
+    for n, s in enumerate(h["steps"]):
+        if s["op"] == "ReInit" and n > 0 and h["steps"][n - 1]["wr"][s["w"] - 1]["mem"] and first_reinit is None:
+            first_reinit = n + 1
+    for b in judge_history(h, o):
+        cls = []
+        if first_reinit is not None and b.startswith("step ") and int(b.split()[1]) >= first_reinit and "constructed/destroyed" in b:
+            cls = ["C02-reinit-leaks-object"]
+        out.append((b, cls))
+    for n, (s, ob) in enumerate(zip(h["steps"], o["obs"])):
+        for k, pr in sorted(ob.get("probes", {}).items()):
+            for name, res in sorted(pr.items()):
+                if name == "bits":
+                    if res != "ok:[False, False, 0]":
+                        out.append(("step %d %s: wrapper %s without object shows %s" % (n + 1, s["op"], k, res), []))
+                elif name.startswith("static"):
+                    if not res.startswith("ok:"):
+                        out.append(("step %d %s: static function through %s without object: %s" % (n + 1, s["op"], k, res), []))
+                elif res != "TypeError":
+                    out.append(("step %d %s: %s on wrapper %s without object gives %s, expected TypeError" % (n + 1, s["op"], name, k, res),
+                                ["C02-unconstructed-const-method-systemerror"] if name in CONST_PROBES else []))
+        if "after_probes" in ob and ob["after_probes"] != [ob["made"], ob["died"]]:
+            out.append(("step %d %s: using a wrapper without object constructed/destroyed instances: %s -> %s" % (
+                n + 1, s["op"], [ob["made"], ob["died"]], ob["after_probes"]), []))
+    return out
+
+
+def eclasses_of(h):
+    out = {"C02-unconstructed-const-method-systemerror"} if any(s["op"] == "NewEmpty" for s in h["steps"]) else set()
+    for n, s in enumerate(h["steps"]):
+        if s["op"] == "ReInit" and n > 0 and h["steps"][n - 1]["wr"][s["w"] - 1]["mem"]:
+            out.add("C02-reinit-leaks-object")
+    return out
+
+
 def objects_batch(args):
-    work, name, hists, asan = args
+    work, name, hists, asan = args[:4]
+    helpers = len(args) > 4 and args[4]
     res = dict(name=name)
     try:
-        build_objects_module(os.path.join(work, name), name, asan=asan)
+        build_objects_module(os.path.join(work, name), name, asan=asan, helpers=helpers)
     except pymod.PymodError as e:
         res["build_error"] = (e.stage, e.detail[-3000:])
         return res
@@ -934,6 +1039,16 @@ PROBES = {
         "class CH {\nPUBLISHED:\n  CH();\n  int f(char c = '\\n');\n  int h(int a, char c = 'x');\n};\n",
         "CH::CH() {}\nint CH::f(char c) { return (int)c; }\nint CH::h(int a, char c) { return (int)c; }\n",
         {"m.CH().f()": ("10",), "m.CH().h(1)": ("120",), "m.CH().f('a')": ("97",)}),
+    "C02-scoped-enum-wrong-type-attributeerror": (
+        "__begin_publish\nenum class Mode { M_a = 1, M_b = 2 };\n__end_publish\nclass EM {\nPUBLISHED:\n  EM();\n  int take_mode(Mode m) const;\n};\n",
+        "EM::EM() {}\nint EM::take_mode(Mode m) const { return (int)m; }\n",
+        {"m.EM().take_mode(m.Mode.M_b)": ("2",), "m.EM().take_mode(1)": ("EXC TypeError",), "m.EM().take_mode('x')": ("EXC TypeError",),
+         "m.EM().take_mode(None)": ("EXC TypeError",)}),
+    "C02-scoped-enum-other-enum-accepted": (
+        "__begin_publish\nenum class Mode { M_a = 1, M_b = 2 };\nenum class Other { O_a = 1, O_z = 9 };\n__end_publish\n"
+        "class EO {\nPUBLISHED:\n  EO();\n  int take_mode(Mode m) const;\n};\n",
+        "EO::EO() {}\nint EO::take_mode(Mode m) const { return (int)m; }\n",
+        {"m.EO().take_mode(m.Mode.M_a)": ("1",), "m.EO().take_mode(m.Other.O_z)": ("EXC TypeError",)}),
     "C02-unpublished-scoped-enum-uncompilable": (
         "enum class Mode { M_a = 1, M_b = 2 };\nclass EN {\nPUBLISHED:\n  EN();\n  Mode get_mode() const;\n};\n",
         "EN::EN() {}\nMode EN::get_mode() const { return Mode::M_b; }\n",
@@ -959,7 +1074,8 @@ def probe_module(args):
     if rc != 0:
         return cid, ["the interpreter died (%s): %s" % (rc, err[-300:])], h
     vals = next(r["evals"] for r in recs if "evals" in r)
-    return cid, ["%s evaluates to %s, expected one of %s" % (k, vals.get(k), v) for k, v in ev.items() if vals.get(k) not in v], h
+    ok = lambda got, want: any((got or "").startswith(w) if w.startswith("EXC ") else got == w for w in want)
+    return cid, ["%s evaluates to %s, expected one of %s" % (k, (vals.get(k) or "")[:120], v) for k, v in ev.items() if not ok(vals.get(k), v)], h
 
 
 # ---- selection of the sets that are replayed ---------------------------------------------------------------
@@ -1007,6 +1123,20 @@ ANCHORS = [
     dict(kind="static", nm="alt", ov=[O(["cA"]), O(["i32", "str"])]),
     dict(kind="method", nm="alt", ov=[O(["rB"]), O(["cA", "f64"], 1)]),
     dict(kind="static", nm="same", ov=[O(["cB"], 1), O(["str", "bool"])]),
+    # classes with converting constructors: explicit + implicit, implicit string, only explicit, two
+    # implicit ones, by value, by pointer, among other overloads
+    dict(kind="static", nm="same", ov=[O(["cM"])]),
+    dict(kind="method", nm="same", ov=[O(["cT"])]),
+    dict(kind="static", nm="same", ov=[O(["cE"])]),
+    dict(kind="method", nm="same", ov=[O(["cW"])]),
+    dict(kind="static", nm="same", ov=[O(["pM"])]),
+    dict(kind="method", nm="same", ov=[O(["vM"])]),
+    dict(kind="static", nm="alt", ov=[O(["cM"]), O(["str"])]),
+    dict(kind="method", nm="alt", ov=[O(["cT"]), O(["f64"])]),
+    dict(kind="method", nm="same", ov=[O(["cT", "i32"], 1), O(["cM", "str"])]),
+    dict(kind="static", nm="alt", ov=[O(["str", "cM"]), O(["cT", "cM"])]),
+    dict(kind="method", nm="same", ov=[O(["cW", "i32"], 1), O(["str"])]),
+    dict(kind="static", nm="same", ov=[O(["cE"]), O(["cW"])]),
 ]
 
 
@@ -1068,7 +1198,7 @@ def show_set(rec):
         (" const" if o["k"] else "") for j, o in enumerate(rec["ov"], 1))
 
 
-ARG_TEXT = {"float": "2.5", "bool": "True", "str": "'aéz'", "bytes": "b'by'", "none": "None", "wrong": "object()",
+ARG_TEXT = {"iM": "M()", "iT": "T()", "iE": "E()", "iW": "W()", "float": "2.5", "bool": "True", "str": "'aéz'", "bytes": "b'by'", "none": "None", "wrong": "object()",
             "iA": "A()", "iB": "B()", "iD": "D()", "iC": "C()", "kA": "A.cref()", "kB": "B.cref()"}
 
 
@@ -1080,7 +1210,8 @@ def show_call(call):
 
 FINDING_CLASSES = ["C02-int-error-ignored", "C02-unsigned-wraps", "C02-bytes-accepted-as-string", "C02-overflow-cleared",
                    "C02-bool-takes-number-overload", "C02-bool-shadows-const-overloads", "C02-longer-overload-first", "C02-extra-arguments-ignored",
-                   "C02-convertible-overload-first", "C02-range-check-before-instance-check"]
+                   "C02-convertible-overload-first", "C02-range-check-before-instance-check",
+                   "C02-pointer-parameter-coerced", "C02-coercing-overload-first"]
 
 
 def run_check(ctx):
@@ -1105,6 +1236,13 @@ def run_check(ctx):
         hh = tlc.read_dump(dump)
         hh.sort(key=lambda r: json.dumps(r, sort_keys=True))
         return res, hh
+    def eobjects_job():
+        dump = os.path.join(work, "eobjects.ndjson")
+        res = tlc.run("PyObjectsMC", "PyObjects_empty", workers=2, env={"VERIF_DUMP": dump}, timeout=1500)
+        eh = tlc.read_dump(dump)
+        eh.sort(key=lambda r: json.dumps(r, sort_keys=True))
+        return res, eh
+    f_eobj = pool.submit(eobjects_job)
     f_hobj = pool.submit(hobjects_job)
     f_obj = pool.submit(objects_job)
     f_names = pool.submit(names_check, work)
@@ -1112,14 +1250,14 @@ def run_check(ctx):
 
     # ---- 1. TLC: enumerate the overload sets, check the refinement on every call of every set -------
     dumped = []
-    cfgs = ["PyDispatch_quick1", "PyDispatch_quick2", "PyDispatch_quick3"] if quick else \
-           ["PyDispatch_thorough1", "PyDispatch_thorough2", "PyDispatch_thorough3"]
+    cfgs = ["PyDispatch_quick1", "PyDispatch_quick2", "PyDispatch_quick3", "PyDispatch_quick4", "PyDispatch_quick5"] if quick else \
+           ["PyDispatch_thorough1", "PyDispatch_thorough2", "PyDispatch_thorough3", "PyDispatch_quick4", "PyDispatch_quick5"]
 
     def tlc_job(cfg):
         dump = os.path.join(work, cfg + ".ndjson")
         res = tlc.run("PyDispatchMC", cfg, workers=2 if quick else 4, env=dict(fix_env(), VERIF_DUMP=dump), timeout=2400)
         return res, tlc.read_dump(dump)
-    for res, recs in run.pmap(tlc_job, cfgs, workers=3):
+    for res, recs in run.pmap(tlc_job, cfgs, workers=5 if quick else 3):
         ctx.add_tlc(res)
         if res.verdict == "invariant":
             raise MachineryError("PyDispatch: %s violated: the mechanism model does not refine the reference outside the "
@@ -1128,7 +1266,7 @@ def run_check(ctx):
         dumped += recs
     uniq = {set_key(s): s for s in dumped}
     n_sets_enumerated = len(uniq)
-    cap = 150 if quick else 1500
+    cap = 165 if quick else 1200
     chosen = select_sets(list(uniq.values()), cap)
 
     # ---- 2. TLC evaluates the spec on the chosen sets: every call with its reference result ---------
@@ -1256,6 +1394,18 @@ def run_check(ctx):
             n_hh += judge_hhistories(ctx, work, "c02ha", list(enumerate(hh)), True, prec)
     n_hist += n_hh
 
+    # ---- 4c. wrappers without a C++ object, __init__ run again (PyObjects_empty) -----------------------
+    res, eh = f_eobj.result()
+    ctx.add_tlc(res)
+    if res.verdict == "invariant":
+        raise MachineryError("PyObjects (empty wrappers): invariant %s violated by the reference model\n%s" % (res.violated, res.out[-2500:]))
+    tlc.must_ok(res)
+    n_eh = judge_ehistories(ctx, work, "c02e", list(enumerate(eh)), False, prec)
+    if not quick and pymod.asan_runtime():
+        n_eh += judge_ehistories(ctx, work, "c02ea", list(enumerate(eh)), True, prec)
+    n_hist += n_eh
+    ctx.notes.update(empty_wrapper_histories_enumerated=len(eh), empty_wrapper_histories_replayed=n_eh)
+
     # ---- 5. names, probes ----------------------------------------------------------------------------------
     try:
         bad, n_names, n_evals = f_names.result()
@@ -1301,6 +1451,35 @@ def run_check(ctx):
         ctx.sample(dict(overloads=show_set(rec), call=show_call(c), expected=c["e"], overload=c["j"], cpp_types=c["ct"]))
     if hl:
         ctx.sample(dict(history=[[s["op"], s["w"], s["src"]] for s in hl[len(hl) // 2][1]["steps"]]))
+
+
+def judge_ehistories(ctx, work, name, hl, asan, prec):
+    r = objects_batch((work, name, hl, asan, True))
+    if "build_error" in r:
+        ctx.violation("the object library does not build (%s): %s" % r["build_error"], dict(error=r["build_error"]))
+        return 0
+    show = lambda h: [[s["op"], s["w"], s["src"]] for s in h["steps"]]
+    if not r["finished"]:          # a dead interpreter is never covered by a finding class
+        at = r.get("last_at")
+        h = dict(hl).get(at[1]) if isinstance(at, list) and len(at) == 2 else None
+        ctx.violation("the interpreter died (%s)%s during the history %s (wrappers without a C++ object are probed after every step)" % (
+            r["rc"], " under ASan" if asan else "", show(h) if h else at), dict(rc=r["rc"], at=at, stderr=r["stderr"][-2500:], asan=asan))
+    n = 0
+    for hid, h in hl:
+        o = r["obs"].get(hid)
+        if o is None:
+            continue
+        n += 1
+        bad = judge_ehistory(h, o)
+        failed = set(c for _, cls in bad for c in cls)
+        for c in eclasses_of(h):
+            prec.setdefault(c, [0, 0])
+            prec[c][1] += 1
+            prec[c][0] += c in failed
+        for b, cls in bad:
+            ctx.violation("object history %s: %s" % (show(h), b), dict(history=h["steps"], observed=o, asan=asan, stat_key="empty %s" % cls),
+                          classes=cls)
+    return n
 
 
 def judge_hhistories(ctx, work, name, hl, asan, prec):
